@@ -256,7 +256,22 @@ fn hook_access(site: u32, addr: usize) {
         // about to touch the queue map
         wait_no_merge();
     }
+    if site == s::FAST_DEC_UNBIAS || site == s::XMERGE_UNBIAS || site == s::MERGE_UNBIAS {
+        report::probe("unbias-store-reached");
+    }
     sched::yield_point_ex(site, 0, true);
+    // the access itself happens now, after other threads may have run: the
+    // box must still exist (checking only before the yield missed an owner
+    // that stores into a box another thread freed in the meantime)
+    if model(|m| m.quarantine.contains(&addr)) {
+        report::violation(
+            &format!("C05/use-after-destroy/{}", steel_rc::verif::site::name(site)),
+            format!(
+                "t{} touched the count word of box {:#x} at {} after another thread had destroyed it (the box was alive when the operation reached this access)",
+                t, addr, sites::name(site)
+            ),
+        );
+    }
     if site == s::ENQUEUE_TID {
         wait_no_merge();
         // every other thread is outside the map now: a lock that is taken is
@@ -659,7 +674,7 @@ impl Scenario for C05 {
         "C05"
     }
     fn default_runs(&self, thorough: bool) -> u64 {
-        if thorough { 2_000_000 } else { 40_000 }
+        if thorough { 2_000_000 } else { 120_000 }
     }
     fn timeout_ms(&self) -> u64 {
         20_000
@@ -674,7 +689,10 @@ impl Scenario for C05 {
         if spec.gen_only {
             return;
         }
-        let strategy = sched::Strategy::swarm(&mut srng, 200);
+        // every count-word access is a candidate for the stall strategy: one
+        // thread is held right before one access while the others run on
+        let all_sites: Vec<u32> = (1..=32).collect();
+        let strategy = sched::Strategy::swarm_with_stall(&mut srng, 200, &all_sites);
         report::set_strategy(strategy.describe());
         *MODEL.lock().unwrap() = Some(Model::default());
         let threads = workload["threads"].as_array().cloned().unwrap_or_default();
